@@ -95,6 +95,12 @@ META = {
         level_note="Two known findings (truncated peer not syncable; weight/throughput state not transferred). After a weight-rule divergence the case stops comparing. Completion of the asynchronous LoadDag behind updateDag is detected from the goroutine profile.",
         technique="property-based testing: differential (peer vs loaded node) over generated ledgers, stream permutations and single-fault injection",
     ),
+    "C16": dict(
+        level_text="Generated call sequences by honest and dishonest clients against the real notary service object, judged by a reference state machine (awaiting, sealed, tentative, challenge) after every step and by authentication implications on every read; concurrent copies of one request are included.",
+        design_ref="DESIGN.md §4 C16",
+        level_note="Success of a valid request is not demanded (the statement does not promise it; the sealing step may legitimately fail while it drops an invalid tip) - only that invalid requests change nothing, sealing needs the receiver, reads need the signed current challenge. Challenge expiry is not advanced.",
+        technique="stateful model-based property testing (rapid) against a reference state machine",
+    ),
 }
 
 def _na():
